@@ -3,17 +3,14 @@ C10 — no request or response can make validation of a valid document panic.
 
 Full-strength goal (DESIGN §4):
     valid_doc_no_panic : DocValid d → ∀ traffic, outcome d traffic ≠ panic ∧ outcome d traffic ≠ diverge
-Four deviations are left on the current tree, so what is proved is `valid_doc_no_panic_partial` under the
-decidable exclusions `ExclOp` (document) and `HugeIndexReq`, `UncopyableReq/Resp`, `UnencodableReq/Resp` (traffic):
-  F-C10-1  UnguardedRecursion    (DESIGN §7 #6, open)  `A: {allOf:[{$ref:A}]}` → unbounded recursion
-  F-C10-8  HugeArrayIndex        (open)  `GET /a?p[b][2000000000]=1` against a deepObject parameter with an array property:
-           `sliceMapToSlice` builds every element up to the largest index (2.7 GB and 5 s for index 2·10⁷; never ends
-           for 9223372036854775807)
-  F-C10-7  UncopyableYamlKey     (open)  a YAML body `~: 1` (or `.nan: 1`) against a schema with oneOf/anyOf: `deepcopy.Copy`
-           of the decoded value panics inside `ValidateRequest` / `ValidateResponse` (reflect on a zero Value)
-  F-C10-6  UnencodableErrorValue (open)  the error returned for `GET /a?q=NaN&q=1` (array of numbers, maxItems 1) or for a
-           YAML body `1: x` carries a value `encoding/json` refuses; `SchemaError.Error()` panics on the encoder's error.
-           The validation functions themselves return normally: only the error-text conjuncts carry this exclusion.
+One deviation is left on the current tree, so what is proved is `valid_doc_no_panic_partial` under the decidable
+exclusion `ExclC10` (a property of the document):
+  F-C10-1  UnguardedRecursion  (DESIGN §7 #6, open)  `A: {allOf:[{$ref:A}]}` → unbounded recursion
+Three classes of round 3 are repaired (theorems below at full strength again, witnesses kept as regression theorems
+and corpus cases):
+  F-C10-6 (2104468, ccc6020) `SchemaError.Error` panicked on a value JSON cannot encode → `errorText_no_panic_partial`
+  F-C10-7 (ca97fab) deepcopy panicked on a YAML null/NaN mapping key under oneOf/anyOf  → the YAML decoder rejects such bodies
+  F-C10-8 (ab8c63f) `sliceMapToSlice` built every element up to a huge index            → the decoder returns an error
 Four more classes were found while this check was built and have since been repaired in the repository;
 their theorems are now at full strength and their witness inputs are regression cases in corpus/C10:
   F-C10-2 (8654816) legacy router, request path spells a non-matching template → `legacyFindRoute_no_panic`
@@ -51,10 +48,10 @@ theorem all_sites_recognised : ∀ r ∈ Gen.panicSites, PanicSites.recognised r
 /-- no stale expectation: every hand-written entry still discharges a row of the regenerated table -/
 theorem all_expectations_used : PanicSites.allUsed PanicSites.expectations Gen.panicSites = true := by decide
 
-/-- exactly one row is discharged as an open finding: the two `panic(err)` of `SchemaError.Error` (F-C10-6; the
-    rows of F-C10-3 and F-C10-4 are guarded in the code since their repair) -/
+/-- no row is discharged as an open finding (the `panic(err)` of `SchemaError.Error`, F-C10-6, is gone since 2104468;
+    the rows of F-C10-3 and F-C10-4 are guarded in the code since their repair) -/
 theorem open_finding_rows :
-    PanicSites.openFindingRows PanicSites.expectations Gen.panicSites = [("SchemaError.Error", "F-C10-6")] := by decide
+    PanicSites.openFindingRows PanicSites.expectations Gen.panicSites = [] := by decide
 
 /-! ## T2: the regenerated map-range table (map iteration order) -/
 
@@ -78,7 +75,7 @@ theorem no_order_dependent_panic :
 /-- the loops whose order is visible in the verdict, the route or the error text (not in panics): exactly these -/
 theorem order_visible_rows :
     MapRanges.panicFreeRows MapRanges.expectations Gen.mapRanges =
-      ["permutePart", "NewRouter", "UrlencodedBodyDecoder", "buildResObj", "makeObject", "urlValuesDecoder.DecodeObject"] := by decide
+      ["permutePart", "NewRouter", "UrlencodedBodyDecoder", "buildResObj", "makeObject", "notJSONData"] := by decide
 
 /-! ## Server.MatchRawURL -/
 
@@ -226,7 +223,7 @@ example : ∃ n b, ∀ m, n ≤ m → Recursion.visit
 theorem validateParameter_no_panic_partial (p : ParamM) (b : Bits) (hwf : p.wf = true)
     (hu1 : ∀ s, p.schema = some s → s.unguarded = false)
     (hu2 : ∀ m s, p.jsonMedia = some m → m.schema = some s → s.unguarded = false)
-    (hcf : b.copyFails = false) (hhi : (p.isQuery && b.hugeIndex) = false) :
+    :
     (validateParameter p b).bad = false := by
   unfold ParamM.wf at hwf
   simp only [Bool.and_eq_true, Bool.not_eq_true'] at hwf
@@ -240,7 +237,7 @@ theorem validateParameter_no_panic_partial (p : ParamM) (b : Bits) (hwf : p.wf =
       split
       · split
         · rfl
-        · exact afterDecode_not_bad _ _ _ (by simp) (by simpa using hcf)
+        · exact afterDecode_not_bad _ _ _ (by simp)
       · split
         · rfl
         · split
@@ -255,7 +252,7 @@ theorem validateParameter_no_panic_partial (p : ParamM) (b : Bits) (hwf : p.wf =
                 simp only
                 split
                 · rfl
-                · exact afterDecode_not_bad _ _ _ (by simp) hcf
+                · exact afterDecode_not_bad _ _ _ (by simp)
               | some s =>
                 simp only
                 have hres : s.resolved = true := by simpa [hj, MediaM.wf, hms, SchemaM.wf] using hm
@@ -263,22 +260,20 @@ theorem validateParameter_no_panic_partial (p : ParamM) (b : Bits) (hwf : p.wf =
                 simp only [hres, Bool.not_true, Bool.false_eq_true, if_false]
                 split
                 · rfl
-                · exact afterDecode_not_bad _ _ _ (by intro x hx'; cases hx'; exact ⟨hres, hung⟩) hcf
+                · exact afterDecode_not_bad _ _ _ (by intro x hx'; cases hx'; exact ⟨hres, hung⟩)
     · cases hsc : p.schema with
       | none => rfl
       | some s =>
         simp only
         have hres : s.resolved = true := by simpa [hsc, SchemaM.wf] using hs
         have hung := hu1 s hsc
-        have hhi' : ¬ (p.isQuery = true ∧ b.hugeIndex = true) := by
-          intro hq; simp [hq.1, hq.2] at hhi
-        simp only [hres, Bool.not_true, Bool.false_eq_true, if_false, hhi']
+        simp only [hres, Bool.not_true, Bool.false_eq_true, if_false]
         split
         · rfl
-        · exact afterDecode_not_bad _ _ _ (by intro x hx'; cases hx'; exact ⟨hres, hung⟩) hcf
+        · exact afterDecode_not_bad _ _ _ (by intro x hx'; cases hx'; exact ⟨hres, hung⟩)
 
 theorem validateBody_no_panic_partial (rb : BodyM) (b : BodyBits) (hwf : rb.wf = true)
-    (hu : rb.content.any MediaM.unguarded = false) (hcf : b.bits.copyFails = false) : (validateBody rb b).bad = false := by
+    (hu : rb.content.any MediaM.unguarded = false) : (validateBody rb b).bad = false := by
   unfold BodyM.wf at hwf
   simp only [Bool.and_eq_true, Bool.not_eq_true'] at hwf
   obtain ⟨hv, hc⟩ := hwf
@@ -309,10 +304,10 @@ theorem validateBody_no_panic_partial (rb : BodyM) (b : BodyBits) (hwf : rb.wf =
           simp only [hres, Bool.not_true, Bool.false_eq_true, if_false]
           split
           · rfl
-          · exact visit_not_bad _ _ hres hung hcf
+          · exact visit_not_bad _ _ hres hung
 
 theorem validateHeader_no_panic_partial (h : HeaderM) (b : Bits) (hwf : h.wf = true)
-    (hu : ∀ s, h.schema = some s → s.unguarded = false) (hcf : b.copyFails = false) : (validateHeader h b).bad = false := by
+    (hu : ∀ s, h.schema = some s → s.unguarded = false) : (validateHeader h b).bad = false := by
   unfold HeaderM.wf at hwf
   simp only [Bool.and_eq_true, Bool.not_eq_true'] at hwf
   obtain ⟨hv, hs⟩ := hwf
@@ -327,7 +322,7 @@ theorem validateHeader_no_panic_partial (h : HeaderM) (b : Bits) (hwf : h.wf = t
     split
     · rfl
     · split
-      · exact visit_not_bad _ _ hres (hu s hsc) hcf
+      · exact visit_not_bad _ _ hres (hu s hsc)
       · split <;> rfl
 
 /-- the decidable exclusion of the request/response part -/
@@ -336,12 +331,7 @@ def ExclOp (op : OpM) : Bool := UnguardedRecursion op
 /-- `ValidateRequest` on a valid document outside the exclusion: for ALL traffic (all decoder and
     validator answers) the outcome is success or an error, never a panic or unbounded recursion -/
 theorem validateRequest_no_panic_partial (op : OpM) (t : ReqTraffic) (hv : DocValid op = true)
-    (hx : ExclOp op = false) (hcp : UncopyableReq op t = false) (hhi : HugeIndexReq op t = false) :
-    (validateRequest op t).bad = false := by
-  unfold HugeIndexReq at hhi
-  unfold UncopyableReq at hcp
-  simp only [Bool.or_eq_false_iff] at hcp
-  obtain ⟨hcp1, hcp2⟩ := hcp
+    (hx : ExclOp op = false) : (validateRequest op t).bad = false := by
   unfold DocValid at hv
   simp only [Bool.and_eq_true] at hv
   obtain ⟨⟨hp, hb⟩, _⟩ := hv
@@ -362,8 +352,6 @@ theorem validateRequest_no_panic_partial (op : OpM) (t : ReqTraffic) (hv : DocVa
     apply validateParameter_no_panic_partial _ _ hwf
     · intro s hs; simpa [hs] using hun.1
     · intro m s hm hs; simpa [hm, MediaM.unguarded, hs] using hun.2
-    · exact Bool.eq_false_iff.mpr ((List.any_eq_false.mp hcp1) ip hip)
-    · exact Bool.eq_false_iff.mpr ((List.any_eq_false.mp hhi) ip hip)
   · cases hbody : op.body with
     | none => simp [hbody] at ho
     | some rb =>
@@ -372,13 +360,9 @@ theorem validateRequest_no_panic_partial (op : OpM) (t : ReqTraffic) (hv : DocVa
       apply validateBody_no_panic_partial
       · simpa [hbody] using hb
       · simpa [hbody] using hub
-      · exact hcp2
 
 theorem validateResponse_no_panic_partial (op : OpM) (t : RespTraffic) (hv : DocValid op = true)
-    (hx : ExclOp op = false) (hcp : UncopyableResp op t = false) : (validateResponse op t).bad = false := by
-  unfold UncopyableResp at hcp
-  simp only [Bool.or_eq_false_iff] at hcp
-  obtain ⟨hcp1, hcp2⟩ := hcp
+    (hx : ExclOp op = false) : (validateResponse op t).bad = false := by
   unfold DocValid at hv
   simp only [Bool.and_eq_true] at hv
   obtain ⟨_, hr⟩ := hv
@@ -414,10 +398,9 @@ theorem validateResponse_no_panic_partial (op : OpM) (t : RespTraffic) (hv : Doc
             obtain ⟨ih, hih, rfl⟩ := ho
             have hmemh := mem_zipIdx _ _ _ hih
             apply validateHeader_no_panic_partial _ _ (List.all_eq_true.mp hwf.1 ih.2 hmemh)
-            · intro s hs
-              have := (List.any_eq_false.mp hun.1) ih.2 hmemh
-              simpa [hs] using this
-            · exact Bool.eq_false_iff.mpr ((List.any_eq_false.mp (Bool.eq_false_iff.mpr ((List.any_eq_false.mp hcp1) r hmem))) ih hih)
+            intro s hs
+            have := (List.any_eq_false.mp hun.1) ih.2 hmemh
+            simpa [hs] using this
           split
           · split
             · rfl
@@ -444,7 +427,7 @@ theorem validateResponse_no_panic_partial (op : OpM) (t : RespTraffic) (hv : Doc
                     simp only [hres, Bool.not_true, Bool.false_eq_true, if_false]
                     split
                     · rfl
-                    · exact visit_not_bad _ _ hres hung hcp2
+                    · exact visit_not_bad _ _ hres hung
           · exact hh
 
 /-- `ConvertErrors` never panics on the errors the validators build (enum errors carry their schema) -/
@@ -470,57 +453,38 @@ structure Scenario where
   req : ReqTraffic
   resp : RespTraffic
   errs : List ReqErrM        -- the request errors handed to ConvertErrors
-  details : Bool             -- !SchemaErrorDetailsDisabled and no message customizer that answers
 
 def ExclC10 (s : Scenario) : Bool := ExclOp s.op
 
-/-- the text of the error `ValidateRequest` returned (`err.Error()`, also what `http.Error(w, err.Error(), 400)` and
-    the `ValidationErrorEncoder` write) can be produced — unless the traffic made a decoder produce a value that
-    cannot be JSON-encoded (F-C10-6) -/
-theorem requestErrorText_no_panic_partial (op : OpM) (t : ReqTraffic) (details : Bool) (hv : DocValid op = true)
-    (hx : ExclOp op = false) (hcp : UncopyableReq op t = false) (hhi : HugeIndexReq op t = false)
-    (hj : UnencodableReq op t = false) :
-    (errorText details (validateRequest op t)).bad = false :=
-  errorText_of_printable _ _ (validateRequest_no_panic_partial op t hv hx hcp hhi) (validateRequest_printable op t hj)
+/-- the text of the error `ValidateRequest` / `ValidateResponse` returned (`err.Error()`, also what
+    `http.Error(w, err.Error(), 400)`, `DefaultErrorEncoder` and `ValidationHandler` write) can always be produced:
+    since 2104468 `SchemaError.Error` has no panic left (table `PanicSites`: the row is gone, `open_finding_rows`) -/
+theorem errorText_no_panic_partial (op : OpM) (t : ReqTraffic) (r : RespTraffic) (hv : DocValid op = true)
+    (hx : ExclOp op = false) :
+    (errorText (validateRequest op t)).bad = false ∧ (errorText (validateResponse op r)).bad = false :=
+  ⟨validateRequest_no_panic_partial op t hv hx, validateResponse_no_panic_partial op r hv hx⟩
 
-theorem responseErrorText_no_panic_partial (op : OpM) (t : RespTraffic) (details : Bool) (hv : DocValid op = true)
-    (hx : ExclOp op = false) (hcp : UncopyableResp op t = false) (hj : UnencodableResp op t = false) :
-    (errorText details (validateResponse op t)).bad = false :=
-  errorText_of_printable _ _ (validateResponse_no_panic_partial op t hv hx hcp) (validateResponse_printable op t hj)
-
-/-- with `SchemaErrorDetailsDisabled` the text is always produced (full strength, no exclusion for F-C10-6) -/
-theorem errorText_without_details (o : Out) (h : o.bad = false) : (errorText false o).bad = false := by
-  cases o with
-  | ok => rfl
-  | err p => cases p <;> rfl
-  | panic s => simp [Out.bad] at h
-  | diverge => simp [Out.bad] at h
-  | exhaust => simp [Out.bad] at h
-
-/-- C10 on the model, partial: a valid document without an unguarded reference cycle (F-C10-1) cannot be made to
-    panic or recurse without bound by any traffic through the legacy router, the gorilla router's port branch,
-    ValidateRequest, ValidateResponse and ConvertErrors; and the returned errors can be printed unless a decoded
-    value is not JSON-encodable (F-C10-6) -/
+/-- C10 on the model, partial: a valid document without an unguarded reference cycle (F-C10-1, the one open
+    finding) cannot be made to panic or recurse without bound by any traffic through the legacy router, the
+    gorilla router's port branch, ValidateRequest, ValidateResponse, the text of their errors and ConvertErrors -/
 theorem valid_doc_no_panic_partial (s : Scenario) (hv : DocValid s.op = true) (hx : ExclC10 s = false)
     (herr : ∀ e ∈ s.errs, ErrWF e = true) :
     (∀ site, legacyFindRoute s.servers s.paths s.method s.rawURL s.urlPath ≠ .panic site) ∧
     (∀ u ∈ s.servers, gorillaPortBranch u ≠ .panic) ∧
-    (UncopyableReq s.op s.req = false → HugeIndexReq s.op s.req = false → (validateRequest s.op s.req).bad = false) ∧
-    (UncopyableResp s.op s.resp = false → (validateResponse s.op s.resp).bad = false) ∧
-    (∀ e ∈ s.errs, (convertErrors e).bad = false) ∧
-    (UncopyableReq s.op s.req = false → HugeIndexReq s.op s.req = false → UnencodableReq s.op s.req = false →
-      (errorText s.details (validateRequest s.op s.req)).bad = false) ∧
-    (UncopyableResp s.op s.resp = false → UnencodableResp s.op s.resp = false →
-      (errorText s.details (validateResponse s.op s.resp)).bad = false) :=
+    (validateRequest s.op s.req).bad = false ∧
+    (validateResponse s.op s.resp).bad = false ∧
+    (errorText (validateRequest s.op s.req)).bad = false ∧
+    (errorText (validateResponse s.op s.resp)).bad = false ∧
+    (∀ e ∈ s.errs, (convertErrors e).bad = false) :=
   ⟨legacyFindRoute_no_panic _ _ _ _ _, fun u _ => gorillaPortBranch_no_panic u,
    validateRequest_no_panic_partial _ _ hv hx, validateResponse_no_panic_partial _ _ hv hx,
-   fun e he => convertErrors_no_panic e (herr e he),
-   requestErrorText_no_panic_partial _ _ _ hv hx, responseErrorText_no_panic_partial _ _ _ hv hx⟩
+   validateRequest_no_panic_partial _ _ hv hx, validateResponse_no_panic_partial _ _ hv hx,
+   fun e he => convertErrors_no_panic e (herr e he)⟩
 
 /-! ## witnesses inside the exclusion, non-vacuity outside -/
 
 def sOK : SchemaM := ⟨true, false⟩
-def bitsAny : Bits := ⟨true, false, false, false, false, true, false, false⟩
+def bitsAny : Bits := ⟨true, false, false, false, false⟩
 
 /-- regression of F-C10-4: content parameter whose media type has no schema, parameter present in the request:
     decoded, not validated -/
@@ -534,28 +498,25 @@ theorem unguarded_body_witness :
     DocValid op = true ∧ ExclOp op = true ∧
     validateRequest op ⟨false, fun _ => bitsAny, ⟨false, some 0, bitsAny⟩⟩ = .diverge := by decide
 
-/-- witness F-C10-6: `GET /a?q=NaN&q=1`, q an array of numbers with maxItems 1 — the document is valid and free of
-    reference cycles, `ValidateRequest` returns an error normally, and producing its text panics -/
-theorem unencodable_value_witness :
+/-- regression of F-C10-6: `GET /a?q=NaN&q=1`, q an array of numbers with maxItems 1 — now a parse error
+    (ccc6020) whose text is produced (2104468) -/
+theorem unencodable_value_regression :
     let op : OpM := ⟨[⟨false, true, false, false, some sOK, false, 0, none⟩], none, []⟩
-    let t : ReqTraffic := ⟨false, fun _ => ⟨true, true, false, false, false, false, false, false⟩, ⟨true, none, bitsAny⟩⟩
-    DocValid op = true ∧ ExclOp op = false ∧ UncopyableReq op t = false ∧ UnencodableReq op t = true ∧
-    validateRequest op t = .err false ∧ (errorText true (validateRequest op t)).bad = true := by decide
+    let t : ReqTraffic := ⟨false, fun _ => ⟨true, true, true, false, false⟩, ⟨true, none, bitsAny⟩⟩
+    DocValid op = true ∧ ExclOp op = false ∧ errorText (validateRequest op t) = .err := by decide
 
-/-- witness F-C10-8: `GET /a?p[b][2000000000]=1`, p a deepObject parameter with an array property b — valid
-    document, and `ValidateRequest` builds two thousand million elements for a 27-byte query -/
-theorem huge_index_witness :
+/-- regression of F-C10-8: `GET /a?p[b][2000000000]=1` — the decoder returns an error (ab8c63f) -/
+theorem huge_index_regression :
     let op : OpM := ⟨[⟨false, true, false, false, some sOK, false, 0, none⟩], none, []⟩
-    let t : ReqTraffic := ⟨false, fun _ => ⟨true, false, false, false, false, true, true, false⟩, ⟨true, none, bitsAny⟩⟩
-    DocValid op = true ∧ ExclOp op = false ∧ UncopyableReq op t = false ∧ HugeIndexReq op t = true ∧
-    validateRequest op t = .exhaust := by decide
+    let t : ReqTraffic := ⟨false, fun _ => ⟨true, false, true, false, false⟩, ⟨true, none, bitsAny⟩⟩
+    DocValid op = true ∧ ExclOp op = false ∧ validateRequest op t = .err := by decide
 
-/-- witness F-C10-7: `POST /a`, `Content-Type: application/yaml`, body `~: 1` against `{oneOf: [{type: object}]}` —
-    valid document without reference cycles, `ValidateRequest` itself panics (in `deepcopy.Copy`) -/
-theorem uncopyable_key_witness :
+/-- regression of F-C10-7: `POST /a`, `Content-Type: application/yaml`, body `~: 1` against `{oneOf: [{type: object}]}`
+    — the YAML decoder returns a format error (ca97fab) -/
+theorem uncopyable_key_regression :
     let op : OpM := ⟨[], some ⟨false, false, [⟨some sOK⟩]⟩, []⟩
-    let t : ReqTraffic := ⟨false, fun _ => bitsAny, ⟨false, some 0, ⟨true, false, false, false, false, true, false, true⟩⟩⟩
-    DocValid op = true ∧ ExclOp op = false ∧ UncopyableReq op t = true ∧ (validateRequest op t).bad = true := by decide
+    let t : ReqTraffic := ⟨false, fun _ => bitsAny, ⟨false, some 0, ⟨true, false, true, false, false⟩⟩⟩
+    DocValid op = true ∧ ExclOp op = false ∧ validateRequest op t = .err := by decide
 
 /-- what the document gate is needed for: an unresolved reference panics -/
 theorem unresolved_ref_panics :
@@ -571,12 +532,9 @@ def opEx : OpM :=
 /-- non-vacuity: a non-trivial operation (styled, content-defined and schema-less parameters, a body with
     two media types, a response with a content-defined and a schema-defined header) satisfies the hypotheses -/
 example : DocValid opEx = true ∧ ExclOp opEx = false := by decide
-example : validateRequest opEx ⟨false, fun _ => bitsAny, ⟨false, some 0, bitsAny⟩⟩ = .err true := by decide
-example : UnencodableReq opEx ⟨true, fun _ => bitsAny, ⟨false, some 0, bitsAny⟩⟩ = false := by decide
-example : validateResponse opEx ⟨false, some 0, fun _ => ⟨true, false, false, false, true, true, false, false⟩, false,
-    ⟨false, some 0, ⟨true, false, false, false, true, true, false, false⟩⟩⟩ = .ok := by decide
-example : HugeIndexReq opEx ⟨true, fun _ => bitsAny, ⟨false, some 0, bitsAny⟩⟩ = false := by decide
-example : UncopyableReq opEx ⟨true, fun _ => bitsAny, ⟨false, some 0, bitsAny⟩⟩ = false := by decide
+example : validateRequest opEx ⟨false, fun _ => bitsAny, ⟨false, some 0, bitsAny⟩⟩ = .err := by decide
+example : validateResponse opEx ⟨false, some 0, fun _ => ⟨true, false, false, false, true⟩, false,
+    ⟨false, some 0, ⟨true, false, false, false, true⟩⟩⟩ = .ok := by decide
 example : ErrWF ⟨true, .schema [⟨true, false⟩, ⟨false, true⟩]⟩ = true := by decide
 theorem convert_enum_without_schema_panics : (convertErrors ⟨true, .schema [⟨true, true⟩]⟩).bad = true := by decide
 
